@@ -86,6 +86,11 @@ __parsec_compound_taskpool_constructor( parsec_compound_taskpool_t* compound )
     assert(NULL == compound->super.taskpool_name);
     compound->completed_taskpools = 0;
     compound->nb_taskpools = 0;
+    /* Hold one pending action until the startup hook replaces it by the number
+     * of composed taskpools: parsec_context_add_taskpool declares the termination
+     * detector ready before it calls the startup hook, and a compound with no
+     * pending action would be reported as terminated right there. */
+    compound->super.nb_pending_actions = 1;
     compound->super.startup_hook = parsec_compound_taskpool_startup;
 }
 
